@@ -71,40 +71,45 @@ def hold(point, until, arm, count):
     return {"point": point, "until": until, "max_ms": HOLD_MS, "arm_after_step": arm, "count": count}
 
 
+NOTIFS = [("didChange", {"change": "main.td", "text": MAIN2}),
+          ("didOpen of a new document", {"open": "other.td", "text": "class Oth;\ndef o : Oth;\n"})]
+
+
 def one_task_schedules():
-    """one request task against the didChange handler"""
+    """one request task against the handler of a didChange / of a didOpen of a document the server has not seen"""
     out = []
-    for kind in sl.REQUEST_KINDS:
-        for found in ((True, False) if kind in ("definition", "references") else (True,)):
-            steps = [{"open": "main.td", "text": MAIN1}, {"wait_idle": True}, req_step(kind, found),
-                     {"change": "main.td", "text": MAIN2}, {"wait_idle": True}]
-            for tp, cnt in task_points(kind, found):
-                for mp in sl.MAIN_POINTS:
-                    for direction in ("task-waits-for-main", "main-waits-for-task"):
-                        if direction == "task-waits-for-main":
-                            h = hold(tp, "main." + mp, 2, cnt)
-                        else:
-                            h = hold("main." + mp, tp, 3, 1)
-                        out.append({"name": "%s%s: %s %s#%d / main.%s" % (kind, "" if found else "(none)", direction, tp, cnt, mp),
-                                    "critical": direction == "task-waits-for-main" and mp in ("vfs_write.acquired", "host_set_file_content.before"),
-                                    "script": base_script(steps, [h])})
+    for nname, notif in NOTIFS:
+        for kind in sl.REQUEST_KINDS:
+            for found in ((True, False) if kind in ("definition", "references") else (True,)):
+                steps = [{"open": "main.td", "text": MAIN1}, {"wait_idle": True}, req_step(kind, found), notif, {"wait_idle": True}]
+                for tp, cnt in task_points(kind, found):
+                    for mp in sl.MAIN_POINTS:
+                        for direction in ("task-waits-for-main", "main-waits-for-task"):
+                            if direction == "task-waits-for-main":
+                                h = hold(tp, "main." + mp, 2, cnt)
+                            else:
+                                h = hold("main." + mp, tp, 3, 1)
+                            out.append({"name": "%s%s vs %s: %s %s#%d / main.%s" % (kind, "" if found else "(none)", nname, direction, tp, cnt, mp),
+                                        "critical": direction == "task-waits-for-main" and mp in ("vfs_write.acquired", "host_set_file_content.before"),
+                                        "script": base_script(steps, [h])})
     return out
 
 
 def diag_schedules():
-    """the diagnostics task of didOpen against the handler of an immediately following didChange"""
+    """the diagnostics task of didOpen against the handler of an immediately following notification"""
     out = []
-    steps = [{"open": "main.td", "text": MAIN1}, {"change": "main.td", "text": MAIN2}, {"wait_idle": True}]
-    for tp, cnt in DIAG_POINTS:
-        for mp in sl.MAIN_POINTS:
-            for direction in ("task-waits-for-main", "main-waits-for-task"):
-                if direction == "task-waits-for-main":
-                    h = hold(tp, "main." + mp, -1, cnt)
-                else:
-                    h = hold("main." + mp, tp, 1, 1)
-                out.append({"name": "diagnostics: %s %s#%d / main.%s" % (direction, tp, cnt, mp),
-                            "critical": direction == "task-waits-for-main" and mp in ("vfs_write.acquired", "host_set_file_content.before"),
-                            "script": base_script(steps, [h])})
+    for nname, notif in NOTIFS:
+        steps = [{"open": "main.td", "text": MAIN1}, notif, {"wait_idle": True}]
+        for tp, cnt in DIAG_POINTS:
+            for mp in sl.MAIN_POINTS:
+                for direction in ("task-waits-for-main", "main-waits-for-task"):
+                    if direction == "task-waits-for-main":
+                        h = hold(tp, "main." + mp, -1, cnt)
+                    else:
+                        h = hold("main." + mp, tp, 1, 1)
+                    out.append({"name": "diagnostics vs %s: %s %s#%d / main.%s" % (nname, direction, tp, cnt, mp),
+                                "critical": direction == "task-waits-for-main" and mp in ("vfs_write.acquired", "host_set_file_content.before"),
+                                "script": base_script(steps, [h])})
     return out
 
 
@@ -114,15 +119,15 @@ def two_task_schedules(rng, n):
     variants = [(k, f) for k in sl.REQUEST_KINDS for f in ((True, False) if k in ("definition", "references") else (True,))]
     for _ in range(n):
         (k1, f1), (k2, f2) = rng.choice(variants), rng.choice(variants)
-        steps = [{"open": "main.td", "text": MAIN1}, {"wait_idle": True}, req_step(k1, f1), req_step(k2, f2),
-                 {"change": "main.td", "text": MAIN2}, {"wait_idle": True}]
+        nname, notif = rng.choice(NOTIFS)
+        steps = [{"open": "main.td", "text": MAIN1}, {"wait_idle": True}, req_step(k1, f1), req_step(k2, f2), notif, {"wait_idle": True}]
         (tp1, c1), (tp2, c2) = rng.choice(task_points(k1, f1)), rng.choice(task_points(k2, f2))
         mp1, mp2 = rng.choice(sl.MAIN_POINTS), rng.choice(sl.MAIN_POINTS)
         if tp1 == tp2 and mp1 == mp2:
             holds = [hold(tp1, "main." + mp1, 2, max(c1, c2) + 1)]
         else:
             holds = [hold(tp1, "main." + mp1, 2, c1), hold(tp2, "main." + mp2, 3, c2)]
-        out.append({"name": "%s + %s: %s / main.%s, %s / main.%s" % (k1, k2, tp1, mp1, tp2, mp2), "critical": False,
+        out.append({"name": "%s + %s vs %s: %s / main.%s, %s / main.%s" % (k1, k2, nname, tp1, mp1, tp2, mp2), "critical": False,
                     "script": base_script(steps, holds)})
     return out
 
@@ -149,6 +154,8 @@ def burst_sessions(rng, n):
                 steps.append(st)
         if i == 0:      # the history of defect D9, verbatim
             steps = [{"open": "main.td", "text": MAIN1}, {"change": "main.td", "text": MAIN2}, req_step("definition")]
+        if i == 1:      # two documents opened back to back, then a request
+            steps = [{"open": "main.td", "text": MAIN1}, {"open": "other.td", "text": "class Oth;\n"}, req_step("hover")]
         out.append({"name": "burst #%d (%d steps)" % (i, len(steps)), "critical": True,
                     "script": base_script(sl.cap_in_flight(steps), [])})
     return out
@@ -195,7 +202,7 @@ def run(ctx):
         crit = [s for s in one + dg if s["critical"]]
         rest = [s for s in one + dg if not s["critical"]]
         rng.shuffle(rest)
-        controlled = crit + rest[:120] + two_task_schedules(rng, 30)
+        controlled = crit + rest[:150] + two_task_schedules(rng, 40)
         bursts = burst_sessions(rng, 24)
     else:
         controlled = one + dg + two_task_schedules(rng, 400)
